@@ -6,6 +6,8 @@ import (
 	"os"
 	"os/exec"
 	"strings"
+	"sync"
+	"time"
 
 	"verifsim/kernel"
 )
@@ -177,7 +179,7 @@ func c11Exec(tr *kernel.Trace, src kernel.Source, withChild bool) *Outcome {
 		runB.BlockIdx++
 		runD.ExecBlock(&rec, nil) // with the crash point
 		runD.BlockIdx++
-		runE.ExecBlock(&plain, nil)
+		inOtherZone(func() { runE.ExecBlock(&plain, nil) }) // its machine also lives in another time zone
 		runE.BlockIdx++
 		o.Evals += 3
 		la := runA.Log[markA:]
@@ -375,7 +377,9 @@ func c11UpgradeExec(tr *kernel.Trace) *Outcome {
 		quiet.Blocks[i].Crash = 0
 	}
 	a := c16Replay(tr.Clone())
-	b := c16Replay(quiet)
+	// replica B's machine is configured for another time zone (one with daylight saving time)
+	var b *Outcome
+	inOtherZone(func() { b = c16Replay(quiet) })
 	for _, x := range []*Outcome{a, b} {
 		if x.InfraErr != nil {
 			o.InfraErr = x.InfraErr
@@ -438,4 +442,25 @@ func storeDiffSummary(a, b *kernel.Chain) string {
 		}
 	}
 	return out
+}
+
+var otherZoneOnce sync.Once
+var otherZone *time.Location
+
+// inOtherZone runs f with the process-wide local time zone switched to Pacific/Auckland (UTC+12/+13 with daylight
+// saving time; a fixed UTC+13 when the zone database is missing): the zone a node runs in is an operator's choice and
+// must not influence what it computes. Runs are sequential inside one worker process, so the switch is not observed by
+// anything else.
+func inOtherZone(f func()) {
+	otherZoneOnce.Do(func() {
+		if loc, err := time.LoadLocation("Pacific/Auckland"); err == nil {
+			otherZone = loc
+		} else {
+			otherZone = time.FixedZone("UTC+13", 13*3600)
+		}
+	})
+	saved := time.Local
+	time.Local = otherZone
+	defer func() { time.Local = saved }()
+	f()
 }
